@@ -14,6 +14,7 @@ REGISTRY = {
     'C02': ('c02', []),
     'C18': ('c18', []),
     'C10': ('c10', []),
+    'C04': ('c04', ['convergence of the Anderson-accelerated iteration on affine loops is numerics outside the model (partial)']),
     'C13': ('c13', ['signals delivered inside C extensions or inside the final bookkeeping statements are not modelled (partial)']),
     'C14': ('c14', ['the imputed value (ridge regression) is an oracle of the model']),
     'C12': ('c12', ['PyYAML float round trip, pickle and base64 blobs, file search are trusted codecs exercised by the save/move/load runs']),
